@@ -151,12 +151,19 @@ def training_set_edits():
                                        {"op": "rate", "rater": b},
                                        {"op": "rate", "rater": a}])
     out.append(list(fitted) + [{"op": "rate", "rater": "R_svr_memA"}])
+    # two fits whose initial parameters differ in exactly one attribute
+    # (a bound, or a constraint expression that keeps the initial value)
+    qs = ["q_para_4k", "q_para_exprR", "q_para_min", "q_para_max"]
+    for a, b in itertools.permutations(qs, 2):
+        out.append([{"op": "apply", "pipe": "P1"},
+                    {"op": "fit", "kw": {"params_initial": a}},
+                    {"op": "fit", "kw": {"params_initial": b}}])
     return out
 
 
 def run(ctx):
     quick = ctx.tier == "quick"
-    sl = {k: world.SLICES[k] for k in ("alias", "alias2", "pre", "pre2")}
+    sl = {k: world.SLICES[k] for k in ("alias", "alias2", "pre", "pre2", "bounds")}
     curve_check.run_engine(
         ctx, "C10_", sl,
         n_random=120 if quick else 600, rand_len=30,
